@@ -34,8 +34,9 @@ type Case struct {
 	Tag      string
 	Pair     *Case // differential partner: same documents are executed against it too
 	Docs     []docgen.Doc
-	NoAuto   bool   // only the explicit Docs
-	Witness  string // pinned canonical witness of this recorded finding: a disagreement on it is that finding
+	NoAuto   bool    // only the explicit Docs
+	Witness  string  // pinned canonical witness of this recorded finding: a disagreement on it is that finding
+	Group    []*Case // further schema files passed to the SAME generator invocation (same package); each has its own root type and documents
 
 	prog *batch.Program
 	idx  int
@@ -205,6 +206,15 @@ func Run(cfg *Config) (*Report, error) {
 			data = jsonx.MarshalIndent(c.Root.ToJSON())
 		}
 		p := &batch.Program{ID: fmt.Sprintf("p%06d", i), Files: append([]batch.File{{Path: rf, Data: data}}, c.Extra...), Args: c.Args, Inputs: []string{rf}, Meta: c}
+		for gi, gc := range c.Group {
+			if gc.RootFile == "" {
+				gc.RootFile = fmt.Sprintf("group%d.json", gi)
+			}
+			p.Files = append(p.Files, batch.File{Path: gc.RootFile, Data: jsonx.MarshalIndent(gc.Root.ToJSON())})
+			p.Inputs = append(p.Inputs, gc.RootFile)
+			gc.prog = p
+			gc.idx = i*100 + gi + 1
+		}
 		c.prog = p
 		progs = append(progs, p)
 	}
@@ -320,7 +330,12 @@ func runBatch(cfg *Config, rep *Report, ks *known.Set, cases []*Case) error {
 	// 3. documents
 	var cmds []batch.Cmd
 	var pend []pending
+	var units []*Case
 	for _, c := range cases {
+		units = append(units, c)
+		units = append(units, c.Group...)
+	}
+	for _, c := range units {
 		if !c.prog.Usable() || drv.Excluded[c.prog.ID] != "" {
 			continue
 		}
@@ -328,7 +343,7 @@ func runBatch(cfg *Config, rep *Report, ks *known.Set, cases []*Case) error {
 			continue
 		}
 		r := sg.NewRng(cfg.Seed, fmt.Sprintf("%s-docs-%d", cfg.Prop, c.idx))
-		g := &docgen.G{R: r, NoMulti: cfg.NoMulti}
+		g := &docgen.G{R: r, NoMulti: cfg.NoMulti, IntLimits: cfg.IntLim}
 		docs := append([]docgen.Doc{}, c.Docs...)
 		if !c.NoAuto {
 			var valids []any
@@ -538,8 +553,8 @@ func decide(cfg *Config, rep *Report, ks *known.Set, p pending, res *batch.Res) 
 			outv, err := jsonx.Parse([]byte(res.OutV))
 			if err == nil {
 				if d2 := model.CompareOut(p.c.Root, p.doc.V, outv, oo); len(d2) > 0 {
-					if ks.Has("byvalue-wrapped-enum") && strings.Contains(res.OutV, `{"Value":`) {
-						rep.Known["byvalue-wrapped-enum"]++
+					if sig := explainValue(ks, p, d2, outv, oo); sig != "" {
+						rep.Known[sig]++
 						return
 					}
 					addViolation(cfg, rep, mkViolation(p, "byvalue", string(p.raw), res.OutV, d2[0].String()))
@@ -568,6 +583,8 @@ func explainValue(ks *known.Set, p pending, diffs []model.OutDiff, out any, base
 		{"addprops-true-not-collected", func(o *model.OutOpts) { o.AddPropsTrueNo = true }},
 		{"named-array-no-rules", func(o *model.OutOpts) { o.NamedArrayAnon = true }},
 		{"minsized-uint8-array-is-bytes", func(o *model.OutOpts) { o.BytesAsBase64 = true }},
+		{"byvalue-wrapped-enum", func(o *model.OutOpts) { o.WrappedEnum = true }},
+		{"addprop-lax", func(o *model.OutOpts) { o.AddPropFloat = true }},
 	}
 	var listed []vd
 	for _, d := range all {
